@@ -427,26 +427,46 @@ def native_units(g, repo):
     return src
 
 
-def native_replay(g, witness, scratch, repo):
+def native_build(g, scratch, repo):
     exe = os.path.join(scratch, 'replay')
-    wfile = os.path.join(scratch, 'witness.txt')
-    with open(wfile, 'w') as f:
-        for k, v in witness.items():
-            f.write('%s=%d\n' % (k, v))
-    cmd = ['clang', '-g', '-O0', '-fsanitize=address,undefined', '-fno-sanitize-recover=undefined', '-w', '-std=gnu99',
-           '-DQV_NATIVE', '-DQV_ENTRY=' + g['entry']] + list(g['defines']) + STD_INCLUDES + repo_includes(repo) + \
-          [os.path.join(ROOT, 'harness', g['harness']), os.path.join(ROOT, 'replay', 'qv_native.c')] + \
+    if os.path.exists(exe):
+        return exe, ''
+    cmd = ['clang', '-g', '-O1', '-fsanitize=address,undefined', '-fno-sanitize-recover=undefined', '-w', '-std=gnu99',
+           '-DQV_NATIVE', '-DQV_ENTRY=' + g['entry'], '-DQV_WCAP=%d' % g.get('wcap', 6)] + list(g['defines']) + STD_INCLUDES + \
+          repo_includes(repo) + [os.path.join(ROOT, 'harness', g['harness']), os.path.join(ROOT, 'replay', 'qv_native.c')] + \
           native_units(g, repo) + ['-lpthread', '-o', exe]
     rc, out, err, _ = run(cmd, timeout=300)
     if rc != 0:
-        return {'built': False, 'log': (out + err)[-2000:]}
+        return None, (out + err)[-2000:]
+    return exe, ''
+
+
+def native_env(g):
     env = dict(os.environ)
-    env['ASAN_OPTIONS'] = 'detect_leaks=1:abort_on_error=0'
-    rc, out, err, secs = run(['timeout', '-s', 'KILL', '10', exe, wfile], timeout=30, env=env)
+    env['ASAN_OPTIONS'] = 'detect_leaks=%d:abort_on_error=0:allocator_may_return_null=1' % (1 if g.get('native_leaks') else 0)
+    env['UBSAN_OPTIONS'] = 'print_stacktrace=1'
+    return env
+
+
+def witness_pairs(w):
+    if isinstance(w, dict):
+        return list(w.items())
+    return [tuple(x) for x in w]
+
+
+def native_replay(g, witness, scratch, repo):
+    exe, log = native_build(g, scratch, repo)
+    if not exe:
+        return {'built': False, 'log': log}
+    wfile = os.path.join(scratch, 'witness.txt')
+    with open(wfile, 'w') as f:
+        for k, v in witness_pairs(witness):
+            f.write('%s=%d\n' % (k, v))
+    rc, out, err, secs = run(['timeout', '-s', 'KILL', '10', exe, wfile], timeout=30, env=native_env(g))
     verdict = 'not-reproduced'
     if rc == 77:
         verdict = 'assumption-not-met'
-    elif rc == 124 or rc == 137 or rc == -9:
+    elif rc in (124, 137, -9):
         verdict = 'reproduced: no termination within 10 s watchdog'
     elif 'REPLAY-FAILED' in out:
         verdict = 'reproduced: postcondition violated natively'
@@ -455,38 +475,58 @@ def native_replay(g, witness, scratch, repo):
     return {'built': True, 'rc': rc, 'verdict': verdict, 'stdout': out[-3000:], 'stderr': err[-3000:]}
 
 
+def native_search(g, scratch, repo, trials, seed):
+    """small-scope random search on the natively compiled harness (real code, ASan+UBSan)"""
+    exe, log = native_build(g, scratch, repo)
+    if not exe:
+        return None, 'native build failed: ' + log[-600:]
+    out_file = os.path.join(scratch, 'found.txt')
+    rc, out, err, secs = run([exe, '--search', str(trials), str(seed), out_file], timeout=g.get('search_timeout', 120), env=native_env(g))
+    if rc == 1 and os.path.exists(out_file):
+        pairs = []
+        for ln in open(out_file):
+            k, _, v = ln.strip().rpartition('=')
+            if k:
+                pairs.append([k, int(v)])
+        return pairs, out.strip()[-200:]
+    return None, (out.strip() or 'search ended rc=%d' % rc)[-300:]
+
+
 def witness_search(g, prop, failed_obs, repo=REPO):
-    """after a failed obligation: look for a concrete failing input of the real, un-woven code
-    (bounded unwinding, small sizes), then replay it natively."""
+    """after a failed obligation: obtain a concrete failing input for the real code and replay it natively.
+       bounded groups (mode unwind): cbmc's own counterexample trace of the failed obligation;
+       contract groups: loop-contract counterexamples are states of an abstracted loop, not inputs, so a
+       small-scope random search on the natively compiled harness (same pre/postconditions) is used."""
     if not g.get('replay', True):
-        return None
+        return {'witness': None, 'note': 'no native counterpart for this harness (summarised / poisoned state)'}
     scratch = tempfile.mkdtemp(prefix='qvw_')
     try:
-        try:
-            gb, _, _, _, _ = build_goto(g, scratch, repo, mode='witness')
-        except Undecided as e:
-            return {'witness': None, 'note': 'witness build failed: ' + str(e)[:400]}
-        cmd = cbmc_cmd(g, gb, mode='witness')
-        rc, out, err, secs = run(cmd, timeout=g.get('witness_timeout', 300), mem_mb=g['mem'])
-        results, msgs = parse_results(out)
-        if not results:
-            return {'witness': None, 'note': 'witness search gave no result (timeout or error)'}
-        obs = classify(g, results)
-        fails = [o for o in obs if not o['canary'] and o['status'] == 'FAILURE' and prop in o['props'] and 'trace' in o]
-        if not fails:
-            return {'witness': None, 'note': 'bounded witness search (cap %s) found no failing input' % g.get('wcap', 6)}
-        # prefer an obligation with the same description as one that failed in the proof run
-        want = set(o['desc'] for o in failed_obs)
-        fails.sort(key=lambda o: (o['desc'] not in want, len(o['trace'])))
         best = None
-        for f in fails[:4]:
-            wit = extract_inputs(f['trace'], g['entry'], g['harness'])
-            rep = native_replay(g, wit, scratch, repo)
-            cand = {'witness': wit, 'witness_obligation': f['desc'], 'replay': rep}
-            if rep.get('verdict', '').startswith('reproduced'):
-                return cand
-            best = best or cand
-        return best
+        if g['mode'] == 'unwind':
+            try:
+                gb, _, _, _, _ = build_goto(g, scratch, repo, mode='proof')
+                cmd = cbmc_cmd(g, gb) + ['--trace']
+                for o in failed_obs[:1]:
+                    cmd += ['--property', o['id']]
+                rc, out, err, secs = run(cmd, timeout=g['timeout'], mem_mb=g['mem'])
+                results, msgs = parse_results(out)
+                obs = classify(g, results or [])
+                fails = [o for o in obs if not o['canary'] and o['status'] == 'FAILURE' and 'trace' in o]
+                for f in fails[:3]:
+                    wit = extract_inputs(f['trace'], g['entry'], g['harness'])
+                    rep = native_replay(g, wit, scratch, repo)
+                    cand = {'source': 'cbmc counterexample trace', 'witness': witness_pairs(wit), 'witness_obligation': f['desc'], 'replay': rep}
+                    if rep.get('verdict', '').startswith('reproduced'):
+                        return cand
+                    best = best or cand
+            except Undecided as e:
+                best = {'witness': None, 'note': 'trace run failed: ' + str(e)[:300]}
+        pairs, note = native_search(g, scratch, repo, g.get('search_trials', 20000), int(os.environ.get('VERIF_SEED', '0') or 0))
+        if pairs:
+            rep = native_replay(g, pairs, scratch, repo)
+            return {'source': 'small-scope random search on the native harness (sizes <= %d)' % g.get('wcap', 6),
+                    'witness': pairs, 'replay': rep, 'note': note}
+        return best or {'witness': None, 'note': 'no concrete failing input found: ' + note}
     finally:
         shutil.rmtree(scratch, ignore_errors=True)
 
@@ -575,15 +615,21 @@ def check_property(prop, tier, groups, propmeta, seed=0):
         seen_f.add(k)
         print('KNOWN-FINDING: property=%s %s [obligation %s: %s]' % (prop, f['text'], r['name'], o['desc']))
     replays = []
-    for (r, vi) in viol:
+    LIMIT = int(os.environ.get('QV_WITNESS_LIMIT', '4'))
+
+    def do_ws(item):
+        (r, vi) = item
+        try:
+            return witness_search(r['group'], prop, vi)
+        except Exception as e:  # replay is best effort, never masks the violation
+            return {'witness': None, 'note': 'witness search crashed: %r' % e}
+    with ThreadPoolExecutor(max_workers=4) as ex:
+        wss = list(ex.map(do_ws, viol[:LIMIT]))
+    wss += [{'witness': None, 'note': 'witness search skipped: more than %d groups failed in this run' % LIMIT}] * max(0, len(viol) - LIMIT)
+    for (r, vi), ws in zip(viol, wss):
         g = r['group']
         rdir = os.path.join(ROOT, 'replays', prop)
         os.makedirs(rdir, exist_ok=True)
-        ws = None
-        try:
-            ws = witness_search(g, prop, vi)
-        except Exception as e:  # replay is best effort, never masks the violation
-            ws = {'witness': None, 'note': 'witness search crashed: %r' % e}
         path = os.path.join(rdir, re.sub(r'[^\w.@=-]', '_', g['name']) + '.json')
         rep = {
             'property': prop, 'group': g['name'], 'harness': g['harness'], 'entry': g['entry'],
@@ -597,7 +643,7 @@ def check_property(prop, tier, groups, propmeta, seed=0):
         json.dump(rep, open(path, 'w'), indent=1)
         reproduced = bool(ws and ws.get('replay') and ws['replay'].get('verdict', '').startswith('reproduced'))
         for o in vi[:6]:
-            print('  failed obligation [%s] %s (%s:%s in %s)' % (r['name'], o['desc'], o['file'], o['line'], o['function']))
+            print('  failed obligation [%s] %s (%s:%s in %s)' % (r['name'], o['desc'], os.path.basename(o['file']), o['line'], o['function']))
         print('VIOLATION property=%s replay=%s%s' % (prop, path, '' if reproduced else ' no-failing-input-found'))
         replays.append(path)
         rc = 1
